@@ -20,6 +20,7 @@ import (
 	"github.com/fsnotify/fsnotify"
 	"gocloud.dev/blob"
 	"gocloud.dev/blob/fileblob"
+	"gocloud.dev/gcerrors"
 	metav1 "k8s.io/apimachinery/pkg/apis/meta/v1"
 	"k8s.io/apimachinery/pkg/types"
 	k8scache "k8s.io/client-go/tools/cache"
@@ -575,6 +576,8 @@ func httpNetworkErrorUnloads() bool {
 
 func TestCloudBlobProviderConverges(t *testing.T) {
 	rapid.Check(t, func(t *rapid.T) {
+		exclBlobComm := false
+
 		dir, err := os.MkdirTemp("", "c18blob-")
 		if err != nil {
 			t.Fatalf("harness: %v", err)
@@ -582,10 +585,14 @@ func TestCloudBlobProviderConverges(t *testing.T) {
 		defer os.RemoveAll(dir)
 
 		// a URL without path (like s3://bucket): the provider then lists the bucket
-		bucketURL := "verifblob://" + registerBucketDir(dir)
+		bucketID := registerBucketDir(dir)
+		bucketURL := "verifblob://" + bucketID
 		ctx := context.Background()
+		faults := faultsOf(bucketID)
+		faults.noMD5 = rapid.IntRange(0, 3).Draw(t, "objectsWithoutMD5") == 0
 
-		bucket, err := blob.OpenBucket(ctx, bucketURL)
+		// the harness writes to the directory directly; heimdall reads through the fault injecting driver
+		bucket, err := fileblob.OpenBucket(dir, nil)
 		if err != nil {
 			t.Fatalf("harness: %v", err)
 		}
@@ -615,6 +622,49 @@ func TestCloudBlobProviderConverges(t *testing.T) {
 				aborted = aborted || content[s] == "syntax"
 			}
 
+			// the object store may fail: the listing or the access to one object ends with a communication error or a
+			// timeout. The documentation: "in case of network issues ... the rule sets previously received from the
+			// corresponding buckets are preserved", so nothing may change in such a poll either.
+			fault := "none"
+
+			if !exclBlobComm {
+				fault = rapid.SampledFrom([]string{"none", "none", "none", "none", "list:unknown", "list:deadline", "read:unknown", "read:deadline"}).Draw(t, "storeFault")
+			}
+
+			switch fault {
+			case "list:unknown":
+				faults.set(gcerrors.Unknown, nil)
+			case "list:deadline":
+				faults.set(gcerrors.DeadlineExceeded, nil)
+			case "read:unknown", "read:deadline":
+				code := map[string]gcerrors.ErrorCode{"read:unknown": gcerrors.Unknown, "read:deadline": gcerrors.DeadlineExceeded}[fault]
+				faults.set(gcerrors.OK, map[string]gcerrors.ErrorCode{fmt.Sprintf("src%d.yaml", rapid.IntRange(0, nsrc-1).Draw(t, "failingObject")): code})
+			default:
+				faults.set(gcerrors.OK, nil)
+			}
+
+			storeFailed := strings.HasPrefix(fault, "list:")
+			if strings.HasPrefix(fault, "read:") {
+				for key := range faults.readErr {
+					var s int
+
+					fmt.Sscanf(key, "src%d.yaml", &s)
+					storeFailed = storeFailed || content[s] != ""
+				}
+			}
+
+			if storeFailed {
+				history = append(history, fmt.Sprintf("poll with object store fault %s %v (bucket holds %v)", fault, faults.readErr, content))
+				nt = true
+
+				_ = prov.Poll(fetcher)
+
+				checkStep(t, w, rec, m, nsrc, nil, history)
+				faults.set(gcerrors.OK, nil)
+
+				return
+			}
+
 			var want []string
 
 			if !aborted {
@@ -637,7 +687,7 @@ func TestCloudBlobProviderConverges(t *testing.T) {
 				}
 			}
 
-			history = append(history, fmt.Sprintf("poll (bucket holds %v)", content))
+			history = append(history, fmt.Sprintf("poll (bucket holds %v, objects without MD5: %v)", content, faults.noMD5))
 
 			_ = prov.Poll(fetcher)
 
@@ -693,9 +743,12 @@ func TestCloudBlobProviderConverges(t *testing.T) {
 		}
 
 		history = append(history, "settle")
+		exclBlobComm = true // the settling polls see a healthy object store
 
 		poll()
 		poll()
+
+		exclBlobComm = false
 
 		stats("cloud_blob", history, nt)
 	})
@@ -871,25 +924,40 @@ func TestKubernetesProviderConverges(t *testing.T) {
 // ---- a file backed bucket reachable through a path-less URL ----------------------------------------------------------------
 
 type dirOpener struct {
-	mu   sync.Mutex
-	dirs map[string]string
-	n    int
+	mu     sync.Mutex
+	dirs   map[string]string
+	faults map[string]*bucketFaults
+	n      int
 }
 
-var opener = &dirOpener{dirs: map[string]string{}}
+var opener = &dirOpener{dirs: map[string]string{}, faults: map[string]*bucketFaults{}}
 
 func init() { blob.DefaultURLMux().RegisterBucket("verifblob", opener) }
 
 func (o *dirOpener) OpenBucketURL(_ context.Context, u *url.URL) (*blob.Bucket, error) {
 	o.mu.Lock()
 	dir, ok := o.dirs[u.Host]
+	faults := o.faults[u.Host]
 	o.mu.Unlock()
 
 	if !ok {
 		return nil, fmt.Errorf("unknown bucket %s", u.Host)
 	}
 
-	return fileblob.OpenBucket(dir, nil)
+	inner, err := fileblob.OpenBucket(dir, nil)
+	if err != nil {
+		return nil, err
+	}
+
+	return blob.NewBucket(&proxyDriver{inner: inner, f: faults}), nil
+}
+
+// faultsOf returns the fault switches of a registered bucket.
+func faultsOf(id string) *bucketFaults {
+	opener.mu.Lock()
+	defer opener.mu.Unlock()
+
+	return opener.faults[id]
 }
 
 func registerBucketDir(dir string) string {
@@ -899,6 +967,7 @@ func registerBucketDir(dir string) string {
 	opener.n++
 	id := fmt.Sprintf("bucket%d", opener.n)
 	opener.dirs[id] = dir
+	opener.faults[id] = &bucketFaults{}
 
 	return id
 }
@@ -912,4 +981,87 @@ func guard(t *rapid.T, history []string, fn func()) {
 	}()
 
 	fn()
+}
+
+// TestCloudBlobSingleObjectConverges: the bucket URL names one object (s3://bucket/key); the provider reads exactly that
+// object instead of listing the bucket. Same lock-step model with one source.
+func TestCloudBlobSingleObjectConverges(t *testing.T) {
+	rapid.Check(t, func(t *rapid.T) {
+		dir, err := os.MkdirTemp("", "c18blob1-")
+		if err != nil {
+			t.Fatalf("harness: %v", err)
+		}
+		defer os.RemoveAll(dir)
+
+		bucketID := registerBucketDir(dir)
+		faults := faultsOf(bucketID)
+		ctx := context.Background()
+
+		bucket, err := fileblob.OpenBucket(dir, nil)
+		if err != nil {
+			t.Fatalf("harness: %v", err)
+		}
+		defer bucket.Close()
+
+		w, rec := newWorld()
+
+		prov, fetcher, err := cloudblob.VerifNewPoller(rec, "verifblob://"+bucketID+"/src0.yaml", "")
+		if err != nil {
+			t.Fatalf("harness: %v", err)
+		}
+
+		m := &model{applied: map[int]string{}}
+		content := ""
+
+		var history []string
+
+		nt := false
+		steps := rapid.IntRange(1, maxSteps()).Draw(t, "steps")
+
+		for i := 0; i < steps; i++ {
+			kind := rapid.SampledFrom(contentKinds).Draw(t, "content")
+			if kind == "gone" {
+				if content != "" {
+					_ = bucket.Delete(ctx, "src0.yaml")
+				}
+
+				content = ""
+			} else {
+				if err = bucket.WriteAll(ctx, "src0.yaml", []byte(ruleSetYAML(0, kind)), &blob.WriterOptions{ContentType: "application/yaml"}); err != nil {
+					t.Fatalf("harness: %v", err)
+				}
+
+				content = kind
+			}
+
+			history = append(history, "op: src0.yaml <- "+kind)
+			nt = nt || kind != "v1" && kind != "v2" && kind != "v3"
+
+			for k, n := 0, rapid.IntRange(0, 2).Draw(t, "polls"); k < n; k++ {
+				fault := rapid.SampledFrom([]string{"none", "none", "none", "unknown", "deadline"}).Draw(t, "storeFault")
+				seen := content
+
+				switch {
+				case fault != "none" && content != "":
+					code := map[string]gcerrors.ErrorCode{"unknown": gcerrors.Unknown, "deadline": gcerrors.DeadlineExceeded}[fault]
+					// (the provider uses the path of the URL, including its leading slash, as key)
+					faults.set(gcerrors.OK, map[string]gcerrors.ErrorCode{"src0.yaml": code, "/src0.yaml": code})
+					seen = "neterr"
+					nt = true
+				case content == "":
+					seen = "gone"
+				}
+
+				want := m.observe(0, seen)
+				history = append(history, fmt.Sprintf("poll (object holds %q, store fault %s)", content, fault))
+
+				_ = prov.Poll(fetcher)
+
+				faults.set(gcerrors.OK, nil)
+				checkStep(t, w, rec, m, 1, want, history)
+			}
+		}
+
+		stats("cloud_blob_single_object", history, nt)
+	})
 }
